@@ -225,7 +225,16 @@ def check_sat(assumptions, timeout_ms=2000):
     for a in assumptions:
         s.add(a)
     t0 = time.time()
-    r = s.check()
+    import threading
+    wd = threading.Timer(timeout_ms / 1000.0 + 3.0, s.ctx.interrupt)
+    wd.daemon = True
+    wd.start()
+    try:
+        r = s.check()
+    except z3.Z3Exception:
+        r = z3.unknown
+    finally:
+        wd.cancel()
     SolverStats.calls += 1
     SolverStats.time += time.time() - t0
     return str(r), s
